@@ -146,6 +146,108 @@ func c13Outbound(c *explore.Ctx, P uint32, A uint16, subID uint32, resume bool, 
 	})
 }
 
+// c13Backlog: the subscriber (QoS 1 subscription, persistent session) is offline while
+// the whole sequence is published, then resumes: every message that fits its Maximum
+// Packet Size arrives, in publication order, whatever oversize messages were queued
+// between them; nothing larger than the limit is sent; the connection stays up.
+func c13Backlog(c *explore.Ctx, P uint32, A uint16, seq [][2]int) {
+	topics := []string{"t/aaaa", "t/bbbb", "t/cccc"}
+	cas := func() any {
+		return map[string]any{"part": "outbound-backlog", "client_max_packet_size": P, "client_topic_alias_max": A, "publishes_topic_len": seq}
+	}
+	c.Count("executions", 1)
+	execBody(c, "C13", cas, func() {
+		w := harness.NewWorld(harness.DefaultConfig(), server.Hooks{})
+		pr := &refmqtt.Props{MaxPacketSize: harness.U32(P), SessionExpiry: harness.U32(3600)}
+		if A != 0 {
+			pr.TopicAliasMax = harness.U16(A)
+		}
+		s := w.Dial("S")
+		if ack := s.Connect(harness.ConnectOpts{ClientID: "s", Clean: true, Version: refmqtt.V5, Props: pr}); ack == nil || ack.Code != 0 {
+			c.Fatal("C13: connect failed %v", ack)
+			return
+		}
+		s.Subscribe(0, refmqtt.Sub{Filter: "t/#", QoS: 1})
+		s.Close()
+		vsched.Settle()
+		p := w.Dial("P")
+		p.Connect(harness.ConnectOpts{ClientID: "p", Clean: true, Version: refmqtt.V311})
+		type want struct {
+			topic, payload string
+			must, mustNot  bool
+		}
+		var wants []want
+		for i, tl := range seq {
+			topic := topics[tl[0]]
+			payload := strings.Repeat(string(rune('a'+i)), tl[1])
+			p.Send(&refmqtt.Packet{Type: refmqtt.PUBLISH, Topic: topic, QoS: 1, PacketID: uint16(i + 1), Payload: []byte(payload)})
+			vsched.Settle()
+			c.Count("transitions", 1)
+			need := refmqtt.Encode(&refmqtt.Packet{Type: refmqtt.PUBLISH, Version: refmqtt.V5, Topic: topic, QoS: 1, PacketID: 1, Payload: []byte(payload)})
+			wants = append(wants, want{topic, payload, uint32(len(need)) <= P, uint32(len(need)-len(topic)) > P+3})
+		}
+		s = w.Dial("S2")
+		if ack := s.Connect(harness.ConnectOpts{ClientID: "s", Clean: false, Version: refmqtt.V5, Props: pr}); ack == nil || ack.Code != 0 || !ack.SessionPresent {
+			c.Violate("outbound", "resume-refused", cas(), "session present", fmt.Sprint(ack))
+			return
+		}
+		vsched.Settle()
+		alias := map[uint16]string{}
+		wi := 0
+		for _, r := range s.Recv() {
+			if uint32(r.Len) > P {
+				c.Violate("outbound-size", "packet-larger-than-client-maximum-from-backlog", cas(), fmt.Sprintf("<= %d bytes", P), fmt.Sprintf("%d bytes: %v", r.Len, r.P))
+				return
+			}
+			if r.P == nil || r.Err != nil || r.P.Type != refmqtt.PUBLISH {
+				c.Violate("outbound", "unexpected-or-undecodable-packet", cas(), "PUBLISH", fmt.Sprint(r.P, r.Err))
+				return
+			}
+			real := r.P.Topic
+			if r.P.Props != nil && r.P.Props.TopicAlias != nil {
+				a := *r.P.Props.TopicAlias
+				if a == 0 || a > A {
+					c.Violate("outbound-alias", "alias-out-of-range", cas(), fmt.Sprintf("1..%d", A), fmt.Sprint(a))
+					return
+				}
+				if r.P.Topic == "" {
+					real = alias[a]
+				} else {
+					alias[a] = r.P.Topic
+				}
+			}
+			// match against the next expected message, skipping ones that may or must be absent
+			for wi < len(wants) && (wants[wi].payload != string(r.P.Payload) || wants[wi].topic != real) {
+				if wants[wi].must {
+					c.Violate("outbound-size", "in-limit-message-behind-an-oversize-one-not-delivered-or-reordered", cas(), fmt.Sprintf("message %d (%d bytes payload) next", wi, len(wants[wi].payload)), fmt.Sprintf("got %s payload %q; drops %v", real, r.P.Payload, w.Drops))
+					return
+				}
+				wi++
+			}
+			if wi == len(wants) {
+				c.Violate("outbound", "unexpected-message-from-backlog", cas(), "a published message", fmt.Sprint(r.P))
+				return
+			}
+			if wants[wi].mustNot {
+				c.Violate("outbound-size", "over-limit-message-delivered", cas(), "dropped whole", fmt.Sprint(r.P))
+				return
+			}
+			wi++
+		}
+		for ; wi < len(wants); wi++ {
+			if wants[wi].must {
+				c.Violate("outbound-size", "in-limit-message-behind-an-oversize-one-not-delivered-or-reordered", cas(), fmt.Sprintf("message %d (%d bytes payload) delivered", wi, len(wants[wi].payload)), fmt.Sprintf("missing; drops %v", w.Drops))
+				return
+			}
+		}
+		if s.ClosedByBroker() {
+			c.Violate("connection-kept", "subscriber-disconnected-by-oversize-or-alias", cas(), "connection stays up", fmt.Sprint(w.Closeds))
+			return
+		}
+		swallowedPanic(c, w, cas)
+	})
+}
+
 func subProps(id uint32) *refmqtt.Props {
 	if id == 0 {
 		return &refmqtt.Props{}
@@ -421,7 +523,7 @@ func c13Inbound(c *explore.Ctx, k c13Cfg) {
 
 func runC13(c *explore.Ctx) {
 	c.Level = "model_checking"
-	c.Rule = "E2: (outbound) client Maximum Packet Size {none,30,40} x Topic Alias Maximum {0,1,2} x subscription id x every publish sequence of length <=3 (thorough 4) over 3 topics x payload lengths sweeping the limit; each received packet is measured and run through a client-side alias table. (inbound) every validator-accepted configuration of the grid server_receive_maximum x topic_alias_maximum x max_packet_size x max_inflight x max_queued: alias values {0,1,max-1,max,max+1,65535} with topic / empty topic / rebinding, receive maximum r and r+1 outstanding QoS2, plus every sequence up to depth r+2 for r=1,2 (thorough: r+4 for r=1,2 and 5 for r=3) of {QoS1/QoS2 publish accepted, refused by the OnMsgArrived hook with a plain error (0x80) or a reason code (0x87), PUBREL} against the client's own count of unacknowledged publishes, packets of exactly max_packet_size and +1; within the advertised limits never disconnected and routed correctly, beyond them DISCONNECT 0x94/0x93/0x95; no panic; broker still serves."
+	c.Rule = "E2: (outbound) client Maximum Packet Size {none,30,40} x Topic Alias Maximum {0,1,2} x subscription id x every publish sequence of length <=3 (thorough 4) over 3 topics x payload lengths sweeping the limit; each received packet is measured and run through a client-side alias table; the same sequences are also published (QoS 1) while the subscriber is offline and must arrive on resume in order, except the oversize ones. (inbound) every validator-accepted configuration of the grid server_receive_maximum x topic_alias_maximum x max_packet_size x max_inflight x max_queued: alias values {0,1,max-1,max,max+1,65535} with topic / empty topic / rebinding, receive maximum r and r+1 outstanding QoS2, plus every sequence up to depth r+2 for r=1,2 (thorough: r+4 for r=1,2 and 5 for r=3) of {QoS1/QoS2 publish accepted, refused by the OnMsgArrived hook with a plain error (0x80) or a reason code (0x87), PUBREL} against the client's own count of unacknowledged publishes, packets of exactly max_packet_size and +1; within the advertised limits never disconnected and routed correctly, beyond them DISCONNECT 0x94/0x93/0x95; no panic; broker still serves."
 	c.Trusted = []string{"vsched default schedule", "refmqtt codec (packet sizes are measured on the wire)"}
 	if rc := replayCase(c); rc != nil {
 		if rc["part"] == "inbound-quota" {
@@ -469,6 +571,10 @@ func runC13(c *explore.Ctx) {
 			if len(seq) == depth {
 				c13Outbound(c, o.P, o.A, o.id, o.resume, seq)
 				c.Count("states", 1)
+				if o.P != 0 && o.id == 0 && !o.resume {
+					c13Backlog(c, o.P, o.A, seq)
+					c.Count("states", 1)
+				}
 				return
 			}
 			for t := 0; t < 3; t++ {
